@@ -1036,6 +1036,36 @@ theorem resize_taps_in_range (floor : Rat → Rat) (toNat : Rat → Nat)
 theorem cmac_params_roundtrip (m : CMAC Rat) (p : List Rat) :
     (m.setParams p).params = p ∧ (m.setParams p).numberOfParameters = m.numberOfParameters := ⟨rfl, rfl⟩
 
+/-- `OneVersusOneClassifier::parameterVector / setParameterVector / numberOfParameters` run through the binary
+classifiers exactly like a `ConcatenatedModel` through optimised layers: round trip and count for any number of
+binary classifiers of any shapes -/
+theorem ovo_params_roundtrip (bins : List (Dense Rat)) (p : List Rat)
+    (hp : p.length = Chain.numberOfParameters (bins.map fun m => (Layer.dense m, true))) :
+    (Chain.setParams (bins.map fun m => (Layer.dense m, true)) p).params = p ∧
+    (Chain.params (bins.map fun m => (Layer.dense m, true))).length
+      = Chain.numberOfParameters (bins.map fun m => (Layer.dense m, true)) :=
+  ⟨chain_params_setParams _ p hp, chain_params_length _⟩
+
+/-- `Centroids`: the centroid matrix is packed row by row like a weight matrix without offset -/
+theorem centroids_params_roundtrip (nIn nC : Nat) (p : List Rat) (hp : p.length = nC * nIn) :
+    let m : Dense Rat := { nIn := nIn, nOut := nC, W := fun _ _ => 0, hasB := false, b := fun _ => 0, act := .linear }
+    (m.setParams p).params = p ∧ (m.setParams p).params.length = nC * nIn := by
+  intro m
+  have h := params_setParams m p (by simp [Dense.numberOfParameters, m, hp])
+  exact ⟨h, by rw [h, hp]⟩
+
+/-- `DropoutLayer`, for the mask its `eval` drew and stored in the `State`: row `i` of the output depends on row
+`i` of input and mask only, and `weightedInputDerivative` (= `coefficients * mask`) is the derivative of the
+coefficient-weighted output sum.  (The mask itself is random; the harness checks that the three evaluation paths
+draw the same one from equal generator states.) -/
+theorem dropout_batch_eq_single (mask X : Nat → Nat → Rat) (i k : Nat) :
+    dropoutEval mask X i k = dropoutEval (fun _ => mask i) (fun _ => X i) 0 k := rfl
+theorem dropout_input_derivative_correct (mask X C : ℕ → ℕ → ℝ) (B n i0 j0 : ℕ) (hi : i0 < B) (hj : j0 < n) :
+    HasDerivAt (fun t => ∑ i ∈ Finset.range B, ∑ k ∈ Finset.range n,
+        C i k * dropoutEval mask (fun i j => if i = i0 ∧ j = j0 then t else X i j) i k)
+      (dropoutGradX mask C i0 j0) (X i0 j0) :=
+  dropout_input_derivative mask X C B n i0 j0 hi hj
+
 /-! ### non-vacuity -/
 def demo : Dense Rat := { nIn := 2, nOut := 2, W := fun k j => (k + 2 * j : Nat), hasB := true, b := fun k => (k : Nat), act := .rectifier }
 example : demo.params = [0, 2, 1, 3, 0, 1] := by decide
